@@ -110,6 +110,7 @@ def rule_c20(prog, rep):
         if not ok:
             rep.violation('B1', classifier, classifier.line, 'spelling:%s' % sp,
                           'the boolean spelling "%s" is not recognised (case-insensitively) by %s()' % (sp, classifier.name))
+    rule_whole_word(prog, rep, classifier, 'B1')
     tv = {table[s0][0] for s0 in TRUE_SP if s0 in table}
     fv = {table[s0][0] for s0 in FALSE_SP if s0 in table}
     other = set(rets) - tv - fv
@@ -404,3 +405,43 @@ def rule_scan_abandon(prog, rep, fname='_parsestr', rid='B5'):
             rep.violation(rid, f, p.line, 'scan-break',
                           'the reference scan is abandoned after line %s without the end of the text having been seen and without a '
                           'restart being requested: every ${...} to the right of this point stays unexpanded' % p.line)
+
+
+def find_bool_classifier(prog):
+    """the static int function of the Apache-style parser unit that compares its argument with the boolean spellings"""
+    for g in prog.funcs_in(UNIT):
+        if g.static and g.rettype == 'int' and g.body is not None:
+            lits = {(_strlit(z) or '').lower() for z in walk(g.body) if _strlit(z) is not None}
+            for d in g.unit.globals.values():
+                pass
+            if lits & {'true', 'on', 'yes'}:
+                return g
+    return None
+
+
+def rule_whole_word(prog, rep, classifier, rid):
+    """The classifier compares whole words: a bounded comparison (strncasecmp/strncmp/memcmp) whose length does not cover the
+    literal's terminator is a prefix match - it accepts abbreviations and, with the length taken from the input, the empty
+    string; the caller then overwrites the accepted word in place with "1"/"0" (2 bytes)."""
+    for y in walk(classifier.body):
+        if y.get('kind') != 'CallExpr':
+            continue
+        nm = prog.callee_name(y)
+        if nm not in ('strncasecmp', 'strncmp', 'memcmp'):
+            continue
+        args = children(y)[1:]
+        if len(args) < 3:
+            continue
+        rep.instance(rid)
+        n = int_value(args[2])
+        lit = None
+        for a in args[:2]:
+            if _strlit(a) is not None:
+                lit = _strlit(a)
+        ok = isinstance(n, int) and lit is not None and n >= len(lit) + 1
+        rep.oblige(rid, ok, {'function': classifier.name, 'comparison': canon(y)[:60]})
+        if not ok:
+            rep.violation(rid, classifier, y.get('_line'), 'prefix-compare',
+                          '%s() compares with %s over a length that does not cover the whole word (%s): abbreviations and the empty '
+                          'string are accepted as booleans - the type check then overwrites a word shorter than "1" in place'
+                          % (classifier.name, nm, canon(args[2])[:30]))
